@@ -166,7 +166,7 @@ def sym(E, p, kf):
         if res["k"] != "ragged":
             return dict(goal=False, got=got, case=case)
         D = specs.store_of(data)
-        coef = {1: [-1, 1], 2: [1, -2, 1], 3: [-1, 3, -3, 1]}[n]
+        coef = {0: [1], 1: [-1, 1], 2: [1, -2, 1], 3: [-1, 3, -3, 1]}[n]
         explens = [z3.If(l - n > 0, l - n, 0) for l in lens]
 
         def cell(k, c):
@@ -256,7 +256,7 @@ def jobs(tier, seed):
     out = [dict(scan, op="cumsum"), dict(scan, op="cumsum", via="np"), dict(scan, op="acc_add"), dict(scan, op="acc_subtract"),
            dict(scan, op="acc_bitwise_xor", R=3),          # 64-bit vectors: 45 s per path at four rows dict(base, op="sort"), dict(base, op="sort", via="np"),
            dict(base, op="unique", R=3, L=3), dict(base, op="unique_counts", R=3, L=3),
-           dict(base, op="diff", n=1), dict(base, op="diff", n=1, via="np"), dict(base, op="diff", n=2), dict(base, op="diff", n=3, L=4)]
+           dict(base, op="diff", n=0, via="np"), dict(base, op="diff", n=1), dict(base, op="diff", n=1, via="np"), dict(base, op="diff", n=2), dict(base, op="diff", n=3, L=4)]
     for op in ("sort", "unique", "unique_counts"):
         out.append(dict(base, op=op, dtype="float16", R=2, L=3))
     for idt in ("uint8", "int32", "int8"):
